@@ -285,7 +285,17 @@ func (x *Exec) contractCall(fr *Frame, st *State, site ssa.Instruction, callee *
 		penv.vars[k] = v
 	}
 	x.bindResults(penv, callee, res)
-	for _, en := range ct.Ensures {
+	for k, en := range ct.Ensures {
+		if en.At != "" {
+			continue // speaks about the callee's locals at one of its returns: not visible to callers
+		}
+		label := en.Name
+		if label == "" {
+			label = fmt.Sprintf("%d", k+1)
+		}
+		if _, w := ct.Witness[label]; w {
+			// the existential is kept (skolemised by the solver) for callers
+		}
 		x.assumeUnder(st.Guard, x.evalBool(penv, en.E))
 	}
 	return res
